@@ -2550,6 +2550,33 @@ def expand_seeded_generators(trees, log):
         log.append(f'N6 {n} generator(s) created with a seed argument written as creation + seed(..)')
 
 
+def drop_sound_stamp_guards(trees, base, log):
+    """N12.  `if self.S != <counter>: <refresh>` where the refresh recomputes the memo fields from the object's state and every method that
+    changes that state advances the counter or resets the stamp / the memo (pdsa/memos.py): the memo always holds what the refresh would
+    compute, so the refresh is made unconditional.  The stamp and the memo fields stay (they are plain fields now)."""
+    from . import memos
+    known_attrs = set(base.get('__attrs__', []))
+    for memo in memos.find_stamped(trees):
+        if memo.stamp in known_attrs or memo.deps is None:
+            continue
+        if memos.check_stamped(memo, trees):
+            continue
+        st = memo.guard_if
+        block = st.body if isinstance(st.test.ops[0], (ast.NotEq, ast.IsNot)) else st.orelse
+        other = st.orelse if block is st.body else st.body
+        if other:
+            continue
+        for parent in ast.walk(memo.guard_fn):
+            for field in ('body', 'orelse', 'finalbody'):
+                v = getattr(parent, field, None)
+                if isinstance(v, list) and st in v:
+                    i = v.index(st)
+                    v[i:i + 1] = block
+                    log.append(f'N12 {memo.guard_cls}.{memo.guard_fn.name}: memo {sorted(memo.value_fields)} stamped with {_txt(memo.src)} is sound '
+                               f'(every change of {sorted(memo.deps)} advances or resets it): refresh made unconditional')
+                    break
+
+
 def _paths_read(e):
     """texts of the attribute / subscript access paths read by e"""
     out = set()
@@ -3686,6 +3713,7 @@ def run(trees, baseline=None):
                 for k, vs in seen.items():
                     if len(vs) == 1 and isinstance(vs[0], ast.Constant) and vs[0].value is not None:
                         NON_NONE_CLASS_CONSTANTS.add(f'{c.name}.{k}')
+    drop_sound_stamp_guards(trees, base, log)
     inline_generators(trees, base, log)
     unfold_walrus(trees, log)
     unroll_table_loops(trees, base, log)
